@@ -54,13 +54,16 @@ CLAIMED = {
          "are the corresponding operations on the element sequence with the improper tail as final element.",
          "6/C21", "Coq proof: equivalence/hash/list laws over the term model + exhaustive small-term differential run through the real PartialEq, Hash, HashMap and list API",
          "The byte-level Hasher protocol of derive(Hash) is abstracted to a token sequence; Display is checked by a Python oracle only."),
- "C24": ("BOUNDED proof + check. The relation definitions are re-translated from src/relation/*.rs on every run; for every list over {1,2} "
-         "(length <= 3/4) the engine model is evaluated inside Coq and proved (forallb by vm_compute, lifted by forallb_forall) to give "
-         "exactly the answers of the Vec-based definition for append (both directions), member (positions), member1 (distinct values), rember, "
-         "distinct, cons/first/rest/empty. Beyond that scope all argument modes are compared with Vec-based definitions on the implementation. "
-         "permute is refuted (known finding, pinned by test_permute_1).",
-         "6/C24", "Coq proof exhaustive over a stated finite scope (kernel evaluation of the engine on translated definitions) + all-modes instance oracle",
-         "Unbounded theorems (for all lists) are not proved; the finite scope is stated in each theorem."),
+ "C24": ("The relation definitions are re-translated from src/relation/*.rs on every run. UNBOUNDED soundness: for append and member, in "
+         "every argument mode, for arbitrary (also partial, non-ground) terms, any search kind, fuel and number of steps, every answer the "
+         "engine delivers satisfies, under every valuation solving the answer's substitution, the inductive relation (c = a with b "
+         "appended; x is an element of l) - through a general theorem that everything the engine delivers is derivable in a declarative "
+         "big-step semantics of goals. BOUNDED completeness + exactness: for every list over {1,2} (length <= 3/4) the engine model, "
+         "evaluated inside Coq (forallb by vm_compute, lifted), gives exactly the answers of the Vec-based definition for append (both "
+         "directions), member, member1, rember, distinct, cons/first/rest/empty. Beyond that scope all argument modes are compared with "
+         "Vec-based definitions on the implementation. permute is refuted (known finding, pinned by test_permute_1).",
+         "6/C24", "Coq proof: unbounded soundness of append/member via the declarative semantics + exhaustive evaluation over a stated finite scope + all-modes instance oracle",
+         "Completeness is proved only over the stated finite scope; rember/member1/distinct (which use !=) have bounded theorems only."),
  "C16": ("PARTIAL. Proved per propagator (ltefd, plusfd, minusfd, timesfd, diseqfd): with all operands ground the constraint is decided "
          "exactly by the integer relation, and the repaired propagators re-run instead of storing themselves when their own pruning bound an "
          "operand. The global statement (every answer of every program satisfies every posted constraint) is decided by brute-force "
@@ -115,11 +118,14 @@ CLAIMED = {
          "fuel). Tied to the code by a step-exact differential run (answer sequence and engine-step count per answer).",
          "6/C05", "Coq proof: engine refines list-monad stream semantics (exact order at DFS nodes) + step-exact differential correspondence",
          "Liveness (the run reaches the end) is not proved; a delivered prefix is proved admissible."),
- "C06": ("Theorems: whatever interleaving search delivers is a permutation-admissible sequence of the reference semantics (nothing lost when "
-         "the stream is exhausted, nothing invented), and every delivered answer of a finite or infinite stream is an answer (membership "
-         "semantics), compositionally for disjunction and conjunction.",
-         "6/C06", "Coq proof: backward preservation of reference stream semantics (permutation at BFS nodes, membership for infinite streams) + step-exact correspondence",
-         "Equality of the multisets of the dfs{} twin and the interleaved program is checked on the implementation and against the Python reference, not proved."),
+ "C06": ("Theorems: whatever interleaving search delivers is a permutation-admissible sequence of the reference stream semantics (nothing "
+         "lost when the stream is exhausted, nothing invented); every delivered answer of a finite or infinite stream is an answer "
+         "(membership semantics), compositionally for disjunction and conjunction; and, declaratively, every answer the engine delivers "
+         "for ANY goal (both search kinds, any fuel, any number of steps) is derivable in a big-step semantics of goals that knows nothing "
+         "of streams (conjunction = composition, disjunction = union, calls = constructed bodies), with a substitution extending the "
+         "starting one.",
+         "6/C06", "Coq proof: backward preservation of reference stream semantics + soundness w.r.t. a declarative big-step semantics (all goals) + step-exact correspondence",
+         "Equality of the multisets of the dfs{} twin and the interleaved program (completeness direction) is checked on the implementation and against the Python reference, not proved."),
  "C07": ("Theorems with explicit bounds: an answer available within n micro-steps of either operand is delivered within 4n+2 / 4n micro-steps "
          "of the interleaving merge whatever the other operand does; a fair bound for bind; completeness for every derivation through "
          "interleaving nodes. 'Delivered' means delivered unless a single engine step fails to return.",
